@@ -25,14 +25,16 @@ PID = "C10"
 LEVEL = "model_checking"
 CRATE = "harness-pub"
 
-# Quirks of the pinned code that the specification models through constants
-# (see the CONSTANTS of PubServer.tla / RepoFiles.tla).  Flip a value when
-# the corresponding repair lands in /repo; the static spec/*.cfg files carry
-# the same values.
+# Defects of the pinned tree that the specification can still model through
+# constants (see the CONSTANTS of PubServer.tla / RepoFiles.tla).  The values
+# describe the current /repo, in which they are repaired; the static
+# spec/*.cfg files carry the same values (spec/MC_RepoFiles_pinned.cfg the
+# old ones).
 CODE_VARIANT = {
-    "MaxNrEquality": "TRUE",        # rrdp.rs:440  keep == max_nr - 1
-    "TruncateOnCreate": "FALSE",    # file.rs:84-113 no O_TRUNC
-    "RemoveOldFirst": "FALSE",      # rsync.rs:118-131 stale old/ stays
+    "MaxNrEquality": "FALSE",     # 3d66903f rrdp.rs:440 keep + 1 >= max_nr
+    "TruncateOnCreate": "TRUE",   # 99a13ae1 file.rs create_file truncates
+    "RemoveTmpFirst": "TRUE",     # 6e18ad8e rsync.rs stale tmp-N removed
+    "RemoveOldFirst": "TRUE",     # 0b66fb18 rsync.rs stale old/ removed
 }
 
 RETENTION = {"min_nr": 0, "max_nr": 2, "min_age": "zero", "max_age": "inf"}
@@ -540,4 +542,7 @@ def replay(path, seed):
     extra_findings(chk)
     run_and_validate(chk, [rp["behaviour"]], "replay",
                      exclude=tuple(rp.get("exclude", [])), revalidate=False)
-    return chk.finish()
+    # no evidence file for a replay (the evidence of the last full run stays)
+    vlib.log(f"{PID} replay: violations={len(chk.violations)} "
+             f"known={len(chk.known)}")
+    return 1 if chk.violations else 0
